@@ -375,10 +375,16 @@ class SymArray(np.ndarray):
             return self.copy()
         b = self.view(np.ndarray)
         if dt.kind in "iu":
-            out = np.empty(b.shape, dtype=dt)
+            if all(Q.lift(x).is_const for x in b.reshape(-1)):
+                out = np.empty(b.shape, dtype=dt)
+                for idx in np.ndindex(b.shape):
+                    out[idx] = int(Q.lift(b[idx]).const_value())
+                return out
+            # symbolic integers stay symbolic (an object array of integer-valued terms)
+            out = np.empty(b.shape, dtype=object)
             for idx in np.ndindex(b.shape):
-                out[idx] = int(Q.lift(b[idx]).const_value())
-            return out
+                out[idx] = Q.lift(b[idx]).to_int64()
+            return out.view(SymArray)
         if dt.kind == "b":
             return concretize_mask(self)
         raise Unsupported("astype(%s) on symbolic data" % dt)
@@ -635,6 +641,27 @@ def _argmax(a, axis=None, out=None, **kw):
         if bool(bi.isnan()) or bool(bi > bb):
             best = i
     return best
+
+
+@implements(np.searchsorted)
+def _searchsorted(a, v, side="left", sorter=None):
+    """index of the first element >= v (side='left') or > v (side='right') of a sorted 1-D array; forks per element"""
+    if sorter is not None:
+        raise Unsupported("searchsorted with sorter on symbolic data")
+    arr = as_sym(a).view(np.ndarray)
+    if arr.ndim != 1:
+        raise Unsupported("searchsorted on a non 1-D symbolic array")
+
+    def one(x):
+        x = Q.lift(x)
+        for i in range(arr.shape[0]):
+            e = Q.lift(arr[i])
+            if bool(e >= x) if side == "left" else bool(e > x):
+                return i
+        return arr.shape[0]
+    if isinstance(v, np.ndarray) and v.ndim > 0:
+        return np.array([one(x) for x in np.asarray(v, dtype=object).reshape(-1)], dtype=np.intp).reshape(v.shape)
+    return one(v)
 
 
 @implements(np.argsort)
